@@ -605,6 +605,11 @@ class ConstEval:
                 raise Unfoldable("re." + f.attr)
             if isinstance(f.value, ast.Name) and f.value.id == "enum" and f.attr == "auto":
                 raise Unfoldable("enum.auto")
+            if isinstance(f.value, ast.Name) and f.value.id == "str" and "str" not in self.env and f.attr == "maketrans":
+                try:
+                    return str.maketrans(*args)
+                except Exception as ex:  # noqa: BLE001
+                    raise Unfoldable(str(ex))
             obj = self.eval(f.value)
             if isinstance(obj, (str, dict, list, tuple, set, frozenset)) and f.attr in _SAFE_STR_METHODS:
                 if isinstance(obj, (dict, list, set)) and f.attr in ("copy",):
